@@ -67,6 +67,28 @@ def _pretty_f(v, ctx):
     return P.pretty_call(ctx, F, v.s)
 
 
+class F2:
+    def __init__(self, *a, **k):
+        self.a, self.k = a, k
+
+
+@P.register_pretty(F2)
+def _pretty_f2(v, ctx):
+    return P.pretty_call(ctx, F2, *v.a, **v.k)
+
+
+import collections as _collections
+Rec = _collections.namedtuple('Rec', ['n', 'content'])
+
+
+class StrSub(str):
+    pass
+
+
+class BytesSub(bytes):
+    pass
+
+
 PLACEMENTS = {
     'top': lambda s: s,
     'sole': lambda s: [s],
@@ -74,6 +96,12 @@ PLACEMENTS = {
     'dict-key': lambda s: {s: 1},
     'dict-value': lambda s: {1: s},
     'call-arg': lambda s: F(s),
+    # the literal starts to the right of the indentation: after `name=`, after an earlier argument, after a constructor name
+    'call-kwarg': lambda s: F2(content=s),
+    'call-second-kwarg': lambda s: [F2(1, n=2, content=s)],
+    'namedtuple-field': lambda s: Rec(n=1, content=s),
+    'subclass': lambda s: (StrSub(s) if isinstance(s, str) else BytesSub(s)),
+    'subclass-dict-value': lambda s: {1: (StrSub(s) if isinstance(s, str) else BytesSub(s))},
 }
 
 
